@@ -130,7 +130,10 @@ def render(body, kind, ind=1):
 
 def make(case, decorated):
     kind = case['kind']
-    head = {'gen': 'def f()', 'agen': 'async def f()', 'coro': 'async def f()'}[kind]
+    # 'wraps': the generated callable is a (*args, **kwargs) pass-through carrying __wrapped__ = a callable of another kind
+    # (what functools.wraps leaves behind, e.g. an async adapter around a synchronous function): its own kind decides
+    params = '(*args, **kwargs)' if case.get('wraps') else '()'
+    head = {'gen': 'def f' + params, 'agen': 'async def f' + params, 'coro': 'async def f' + params}[kind]
     ann = case['ann']
     ns = dict(ENV)
     import collections.abc as cabc
@@ -149,6 +152,14 @@ def make(case, decorated):
     src = '%s%s:\n    LOG.append("start")\n%s\n' % (head, annsrc, '\n'.join(lines))
     exec(compile(src, '<c08>', 'exec'), ns)
     f = ns['f']
+    if case.get('wraps'):
+        import functools
+        bases = {}
+        exec('def sync(): return 7\nasync def coro(): return 7\ndef gen():\n    yield 7\nasync def agen():\n    yield 7\n', bases)
+        ann = f.__annotations__
+        f = functools.wraps(bases[case['wraps']])(f)
+        f.__annotations__ = ann          # the adapter keeps its own return annotation
+        src = '# functools.wraps(<%s function>) applied to:\n%s' % (case['wraps'], src)
     return (beartype(f) if decorated else f), src
 
 
@@ -183,7 +194,11 @@ def run_ops(fn, kind, ops):
     ignored = False
     with warnings.catch_warnings():
         warnings.simplefilter('ignore')
-        obj = fn()
+        try:
+            obj = fn()
+        except Exception as e:
+            # calling a generator / coroutine function runs none of its body: a raise here comes from the wrapper itself
+            return [[['call'], ('raise', type(e).__name__, repr(e.args)[:80], '')]] + [[op, ('skipped',)] for op in ops], list(LOG), False
         for op in ops:
             k = op[0]
             thrown = None
@@ -269,7 +284,8 @@ def _case(draw, tier):
     # exceptions the body has handlers for are thrown preferentially (a thrown exception nobody catches only ends the object)
     ops_s = OPS if not caught else st.one_of(OPS, OPS, st.sampled_from(caught).map(lambda e: ['throw', e]))
     ops = draw(st.lists(ops_s, min_size=1, max_size=8))
-    return {'kind': kind, 'body': body, 'ann': ann, 'ops': ops}
+    wraps = draw(st.sampled_from([None, None, None, 'sync', 'coro', 'gen', 'agen']))
+    return {'kind': kind, 'body': body, 'ann': ann, 'ops': ops, 'wraps': wraps}
 
 
 def strategy(tier):
@@ -302,6 +318,11 @@ def run_case(case):
         return {'fails': fails, 'nontrivial': False, 'classes': ['excluded:ignores-GeneratorExit', 'kind:' + kind], 'evals': 1,
                 'excluded': 1}
     t2, log2, _ign = run_ops(deco, kind, case['ops'])
+    if t2 and t2[0][0] == ['call'] and not (t1 and t1[0][0] == ['call']):
+        fails.append({'sig': 'factory-call-raised:%s:%s' % (kind, t2[0][1][1]),
+                      'detail': '%s\ncalling the decorated %s function raised %r (the undecorated one returns its object without running any body code)' % (
+                          src, kind, t2[0][1])})
+        return {'fails': fails, 'nontrivial': True, 'evals': 2, 'classes': ['kind:' + kind, 'ann:' + case['ann'], 'factory-call-raised']}
     def violates(v):
         if kind != 'coro':
             return False
@@ -356,4 +377,4 @@ def run_case(case):
     if any(op[0] == 'send' and op[1] is not None for op in case['ops']):  # incl. falsy non-None values
         nontriv = True
     return {'fails': fails, 'nontrivial': nontriv, 'evals': 2,
-            'classes': ['kind:' + kind, 'ann:' + case['ann'], 'nops:%d' % len(case['ops'])]}
+            'classes': ['kind:' + kind, 'ann:' + case['ann'], 'nops:%d' % len(case['ops']), 'wraps:%s' % case.get('wraps')]}
